@@ -166,6 +166,12 @@ func (c *Conn) handleClientHello(record []byte, isRetry bool) (outer, inner *cli
 	if outer, err = parseClientHello(record[5:]); err != nil {
 		return nil, nil, err
 	}
+	// Nothing may follow the extensions of a ClientHello on the wire. Such
+	// bytes would be dropped when the hello is marshalled again, and they
+	// would not be covered by the ClientHelloOuterAAD.
+	if len(outer.trailing) > 0 {
+		return nil, nil, fmt.Errorf("%w: trailing data in ClientHello", ErrDecodeError)
+	}
 	// Section 5.1
 	// The "ech_outer_extensions" extension can only be included in
 	// EncodedClientHelloInner, and MUST NOT appear in either
